@@ -31,6 +31,7 @@ type docCase struct {
 	Cut     int        `json:"cut"`
 	Valid   bool       `json:"valid"`
 	TxValid bool       `json:"txvalid"`
+	Bad     int        `json:"bad"`
 }
 
 const nsJSON = `{"ex":"` + EntNS + `","r":"` + PredNS + `","p":"` + PropNS + `","_":"` + EntNS + `"}`
@@ -298,8 +299,19 @@ func TestParser(t *testing.T) {
 			if rec.Code < 400 {
 				div("http-accepts-invalid", "an error status", rec.Code)
 			}
-			if len(stored) != 0 {
-				div("http-stores-from-invalid", "nothing stored", stored)
+			// nothing assembled from the malformed element or from what follows it; what precedes it may have been
+			// flushed already (every 10 entities), entity by entity as the document denotes it
+			allowed := map[string]bool{}
+			if d.Ctx == "ok" || d.Ctx == "ok_default_prefix" {
+				for i := 0; i < d.Bad-1 && i < len(exp); i++ {
+					allowed[exp[i].Key()] = true
+				}
+			}
+			for _, se := range stored {
+				if !allowed[se.Key()] {
+					div("http-stores-from-invalid", map[string]any{"only_elements_before": d.Bad}, stored)
+					break
+				}
 			}
 		}
 		// (3) what the hub serialises parses back to the same entities (entities and changes)
